@@ -27,8 +27,9 @@ type Op struct {
 }
 
 type Trace struct {
-	MaxDepth int  `json:"max_branch_depth"`
-	Ops      []Op `json:"ops"`
+	MaxDepth  int  `json:"max_branch_depth"`
+	HookDepth int  `json:"hook_prune_depth,omitempty"` // the history's hook prune depth (0: production depth only)
+	Ops       []Op `json:"ops"`
 }
 
 type Finding struct {
@@ -58,12 +59,14 @@ type Inst struct {
 	BI        *branchInfo
 	// a best-chain reorganisation happened since the last completed Save
 	ReorgSinceSave bool
+	SavedTip       *Node // best tip when the storage was last written completely (Save, Clean, or the Save a reload came from)
 }
 
 type Options struct {
 	Props       map[string]bool       // which properties' clauses are evaluated/reported
 	CrashPoints bool                  // enumerate crash prefixes at Clean/Save (C12)
 	HeightSel   func(h, tip int) bool // nil = every height
+	Touch       func()                // progress mark for the no-progress watch (may be nil)
 }
 
 type Engine struct {
@@ -165,7 +168,14 @@ func (e *Engine) ranges(height int) [][2]int {
 	return r
 }
 
+func (e *Engine) touch() {
+	if e.Opt.Touch != nil {
+		e.Opt.Touch()
+	}
+}
+
 func (e *Engine) snap(in *Inst) *Snap {
+	e.touch() // a snapshot is taken at least once per operation and instance
 	h := 0
 	safe(func() { h = in.Repo.Height() })
 	return TakeSnap(e.Ctx, in.Repo, e.keys(in), e.ranges(h), e.Opt.HeightSel)
